@@ -336,6 +336,37 @@ func c10_1(c *core.Ctx, p *core.Prog) {
 			"every path on which a new shard was stored performs the "+e.name+" before returning",
 			"a path from LoadOrStore (new shard stored) to a return skips the "+e.name+": the map holds a shard that is never started / not counted, and later requests for that combination are swallowed")
 	}
+	// every insertion into the shard map, wherever it happens, counts the shard: a shard stored outside the
+	// admission path (e.g. pre-created at start) that is not counted makes the limit admit one more combination
+	if !admission {
+		nIns := 0
+		for _, f := range cbpFuncs(c, p) {
+			f := f
+			core.EachInstr(f, func(i ssa.Instruction) {
+				cl, ok := i.(*ssa.Call)
+				if !ok || cl == x.loadStore {
+					return
+				}
+				fo := core.CalleeObj(cl)
+				if !(core.IsMethodOf(fo, "sync", "Map", "Store") || core.IsMethodOf(fo, "sync", "Map", "LoadOrStore") || core.IsMethodOf(fo, "sync", "Map", "Swap")) {
+					return
+				}
+				if fa := core.LoadedField(cl.Call.Args[0]); fa == nil {
+					if fa2, ok2 := cl.Call.Args[0].(*ssa.FieldAddr); !ok2 || core.FieldVar(fa2) != x.mapF {
+						return
+					}
+				} else if core.FieldVar(fa) != x.mapF {
+					return
+				}
+				nIns++
+				isSize := func(j ssa.Instruction) bool { _, ok := storesTo(j, x.sizeF); return ok }
+				skip, _ := (core.PathQuery{Fn: f, From: cl, Avoid: isSize, ExitReturnOnly: true}).Exists()
+				c.Check(!skip, fmt.Sprintf("insert#%d@%s", nIns, core.FuncName(f)), p.Pos(cl.Pos()), core.FuncName(f),
+					"the insertion into the shard map is followed by the size update on every path",
+					"a shard is inserted into the map outside the admission path without being counted: metadata_cardinality_limit=N then admits N counted combinations plus this one, and requests for it bypass the limit test altogether")
+			})
+		}
+	}
 	// size accessed only under the lock, package-wide
 	for _, f := range cbpFuncs(c, p) {
 		if !admission {
